@@ -405,7 +405,8 @@ def check(run):
         "correspondence whenever the expression can be typed as is), load_report (a JSON report is really saved and loaded in the "
         "correspondence; the model receives the report normal form), re.search for --grep (parameter re_search of the model; the "
         "correspondence instantiates it with substring search on regex-inert caseless patterns)",
-        "model describes filter.py WITH fixes/F07-property-negation-and-empty-pattern.patch applied",
+        "the model describes filter.py as fixed by /repo commit ce19080 (fixes/F07-property-negation-and-empty-pattern.patch); on the "
+        "code before that commit the check reports select:property-negation-absent-key and exception:IndexError:empty-pattern",
     ]
     run.assume += [
         "POSIX (os.path.normcase is the identity)",
@@ -417,8 +418,8 @@ def check(run):
     ]
     run.prove(extra_targets=["theories/Base/Util.vo", "theories/Model/Report.vo", "theories/Model/Glob.vo", "theories/Model/Filter.vo"])
     quick = run.tier == "quick"
-    n_cases = 2000 if quick else 40000
-    n_glob = 10000 if quick else 200000
+    n_cases = 2000 if quick else 80000
+    n_glob = 10000 if quick else 300000
     rng = run.rng
 
     # ---- glob pairs through fnmatch.fnmatch itself
